@@ -1198,6 +1198,8 @@ class BADS:
 
         poll_iteration += 1
         loop_iter = 0
+        msg = "Optimization terminated: stopped by the output function options['output_fcn']."
+        self.optim_state["termination_msg"] = msg
         while not is_finished:
             self.optim_state["iter"] = poll_iteration
             self.gp_refitted_flag = False
